@@ -4,9 +4,12 @@ import vflib, exprun
 from exprun import CLASS_IDX
 
 PROP = "C18"
-RULE = ("model sets = corpus/exp + FK-shaped generator (several FKs to one table, self references, chains through key columns, "
+RULE = ("model sets = corpus/exp + systematic import coverage (27 import features of the Python exporters — every column type, "
+        "nullable, FK, index, composite index, composite unique, server default = the lower-case helper `text`: one table per feature, one "
+        "per PAIR of features so that every two importable names co-occur, and two all-at-once tables) + FK-shaped generator (several FKs to one table, self references, chains through key columns, "
         "junction tables, one-to-one, odd identifiers) + vcommon loader-profile generator, all loader-accepted and normalised as "
-        "`vespertide export` does; every table of every set is rendered for the 3 ORMs: 4x in one process, under reversed / rotated / "
+        "`vespertide export` does; every table of every set is rendered for the 3 ORMs: 4x (SeaORM) / 12x (Python ORMs; every distinct import block "
+        "goes to K-exp, order of names included) in one process, under reversed / rotated / "
         "shuffled schema slices, and once in each of 8 fresh processes; non-trivial = distinct (by hash of the models) set with >= 2 tables and >= 1 foreign key")
 
 
@@ -87,7 +90,8 @@ def verdict(chk, run, tier, seed):
     chk.cov["distinct_nontrivial"] = exprun.nontrivial_sets(run)
     chk.cov["rule"] = RULE
     chk.cov["samples"] = exprun.table_samples(run)
-    chk.cov["distribution"] = dict(exprun.distribution(run), renders_in_process=n_tables * 3 * 4,
+    chk.cov["distribution"] = dict(exprun.distribution(run), renders_in_process=n_tables * (4 + 12 + 12),
+                                   import_pair_tables=sum(len(o["tables"]) for o in obs if o["tag"] == "import-pairs"),
                                    fresh_process_renders=procs.get("renders_per_process", 0) * procs.get("processes", 0))
     chk.cov["traces_validated_against_impl"] = n_tables
     chk.cov["correspondences"] = {"K-exp(seaorm declarations, import blocks)": {"cases": n_tables, "mismatches": len(rel)},
